@@ -67,6 +67,7 @@ def units(tier, seed):
             for k in range(0, len(dags), chunk):
                 us.append(('dag', n, dags[k:k + chunk], 'twoschema', tier))
                 us.append(('dag', n, dags[k:k + chunk], 'columnless', tier))
+                us.append(('dag', n, dags[k:k + chunk], 'withenum', tier))
     for n in (2, 3):
         cyc = [e for e in digraphs(n) if not acyclic(n, e)]
         for k in range(0, len(cyc), 3):
@@ -97,6 +98,11 @@ def make_model(n, edges, kinds, extra, variant):
             refs.append(asm.ref('<', [tc], [hc], inline=True))
         else:
             refs.append(asm.ref(k, [hc], [tc], inline=True))
+    enums = []
+    if variant == 'withenum':
+        # an enum (CREATE TYPE comes first in the script) used by a column of the first table
+        enums.append(asm.enum('e', ['x', 'y']))
+        tables[0]['columns'].append(asm.col('st', ['enum', 'public', 'e']))
     if variant == 'columnless':
         # a table without any column (reachable through the API only) is still one of the database's tables
         tables.insert(len(tables) // 2, asm.table('nocols', []))
@@ -109,7 +115,46 @@ def make_model(n, edges, kinds, extra, variant):
             refs.insert(0, asm.ref('<>', [a], [b], inline=False))
         elif extra == 'm2m_inline_flag':
             refs.insert(0, asm.ref('<>', [a], [b], inline=True))
-    return asm.model(tables=tables, refs=refs)
+    return asm.model(tables=tables, refs=refs, enums=enums)
+
+
+EDIT_ALPHABET = [('inline', False), ('inline', True), ('type', '>'), ('type', '-'), ('type', '<>')]
+
+
+def check_edit_histories(m, case, vs):
+    """"depends only on the model": every sequence of up to two edits of one reference's inline flag / kind, applied to a database
+    that was rendered before, gives the SQL of a fresh database with the final content (final contents are themselves elements of the product)"""
+    n_checked = 0
+    for k, r in enumerate(m['refs']):
+        if r['type'] == '<':
+            alphabet = EDIT_ALPHABET[:2]
+        else:
+            alphabet = EDIT_ALPHABET
+        for d in (1, 2):
+            for seq in itertools.product(alphabet, repeat=d):
+                m2 = asm.clone(m)
+                for attr, val in seq:
+                    m2['refs'][k][attr] = val
+                if all(m2['refs'][k][a] == r[a] for a in ('inline', 'type')) and d == 1:
+                    continue
+                try:
+                    dbe = builder.build(m)
+                    dbe.sql
+                    for attr, val in seq:
+                        setattr(dbe.refs[k], attr, val)
+                    s_hist = dbe.sql
+                except Exception as e:
+                    vs.append(violation(PID, 'render-crash', dict(case, ref=k, edits=[list(x) for x in seq]), observed=exc_info(e), detail=f'{type(e).__name__}: {e}'))
+                    continue
+                try:
+                    s_fresh = builder.build(m2).sql
+                except Exception:
+                    continue
+                n_checked += 1
+                if s_hist != s_fresh:
+                    vs.append(violation(PID, 'order-depends-on-history', dict(case, ref=k, edits=[list(x) for x in seq]),
+                                        detail=f'after rendering and then editing reference {k} with {list(seq)}, .sql differs from the .sql of a fresh database with the same content'))
+    return n_checked
 
 
 def qn(parts):
@@ -146,6 +191,8 @@ def check_model(m, acyclic_graph, case):
         if s_hist != s_fresh:
             vs.append(violation(PID, 'order-depends-on-history', dict(case, edit=k),
                                 detail=f'after rendering and then making reference {k} standalone, .sql differs from the .sql of a fresh database with the same content'))
+    if len(m['tables']) <= 3 and len(m['refs']) <= 2:
+        check_edit_histories(m, case, vs)
     try:
         st = ddl.read(sql1)
     except ddl.DDLError as e:
@@ -222,6 +269,8 @@ def work(unit):
 
 def replay(case):
     m = make_model(case['n'], [tuple(x) for x in case['edges']], case['kinds'], case['extra'], case['variant'])
-    c = {k: v for k, v in case.items() if k != 'observed_order'}
+    c = {k: v for k, v in case.items() if k not in ('observed_order', 'ref', 'edits', 'edit')}
     vs, _ = check_model(m, case['acyclic'], c)
+    if 'edits' in case:
+        vs = [v for v in vs if v['case'].get('edits') == case['edits'] and v['case'].get('ref') == case['ref']] or vs
     return vs
